@@ -82,7 +82,7 @@ def values(thorough):
 
 
 def _dna(d, lit):
-  x = pg.DNA(lit)
+  x = pg.DNA(D.ctor(lit))
   x.set_metadata('m', {'a': [1, (2, 3)], 'f': 1.5}, cloneable=True)
   return x
 
